@@ -562,6 +562,8 @@ def r12(ctx):
 
 
 def run(ctx):
+    from . import C17
+    C17.r4(ctx)   # one connect, one server-side socket: a segment of a live connection never reaches the listener (a retransmitted SYN must not fork a second child)
     r12(ctx)
     r11(ctx)
     from . import C06
